@@ -301,7 +301,7 @@ def cases(ctx):
     rng = ctx.rng
     quick = ctx.tier == "quick"
     i = 0
-    nrand = 2 if quick else 12
+    nrand = 6 if quick else 12
     # DF17/18 x TC x subtype
     for df in (17, 18):
         for tc in range(32):
@@ -340,7 +340,7 @@ def cases(ctx):
                 yield "frames", {"frames": fr}
             i += 1
     # Comm-B with sparse payloads (satisfy several register formats -> tell branches)
-    for k in range(ctx.share(30 if quick else 600)):
+    for k in range(ctx.share(120 if quick else 600)):
         fr = []
         for _ in range(40):
             mb = rng.getrandbits(56) & rng.getrandbits(56) & rng.getrandbits(56)
@@ -348,7 +348,7 @@ def cases(ctx):
         yield "frames", {"frames": fr}
     # valid register contents so that tell() reaches every BDS branch
     from . import C12
-    for k in range(ctx.share(18 if quick else 300)):
+    for k in range(ctx.share(60 if quick else 300)):
         fr = []
         for reg in ("BDS10", "BDS17", "BDS20", "BDS30", "BDS40", "BDS44", "BDS45", "BDS50", "BDS60"):
             for _ in range(4):
